@@ -121,7 +121,18 @@ class FormRunner:
                     out.append(k)
         return out
 
-    def run_group(self, itype, sid, data: inputs.FormData, entity=(0, 0), perm=None, A0=None, poison=None):
+    def coefficient_slots(self, width):
+        """[(start, stop)] of each listed coefficient inside w, from descriptor + original element dimensions."""
+        ocoefs = self.form.coefficients()
+        out = []
+        pos = 0
+        for p in self.desc["original_coefficient_positions"]:
+            n = ocoefs[p].ufl_function_space().ufl_element().dim * width
+            out.append((pos, pos + n))
+            pos += n
+        return out
+
+    def run_group(self, itype, sid, data: inputs.FormData, entity=(0, 0), perm=None, A0=None, poison=None, poison_disabled=False):
         """Apply the kernels listed under (itype, sid) one after another; returns CallResult-like."""
         width = 2 if itype == "interior_facet" else 1
         dims = [e.dim for e in self.fd.argument_elements]
@@ -148,7 +159,13 @@ class FormRunner:
                 pm = list(perm) if perm is not None else [0, 0]
             elif perm is not None:
                 pm = list(perm)
-            r = kernels.call_kernel(self.module.ffi, itg, self.scalar_type, shape, w, c, x, entity=ent, perm=pm, A0=A)
+            wi = w
+            if poison_disabled:
+                wi = np.array(w, dtype=np.complex128 if self.complex else np.float64)
+                for (a, b), en in zip(self.coefficient_slots(width), self.desc["integrals"][i]["enabled_coefficients"]):
+                    if not en:
+                        wi[a:b] = np.nan
+            r = kernels.call_kernel(self.module.ffi, itg, self.scalar_type, shape, wi, c, x, entity=ent, perm=pm, A0=A)
             A = r.A
             problems += r.problems
             ncalled += 1
